@@ -10,7 +10,7 @@
 
    [fixed : switches] (sw_leaf, sw_rej) and [ifixed] stand for the three switches of Switch.v; a theorem that
    holds whatever their value quantifies over them, the ones that need a repair say so in a hypothesis.
-   Hypotheses, where present:  [accepts]: the function rejects no revision of the corpus (a rejected write
+   The hypotheses, where present:  [accepts]: the function rejects no revision of the corpus (a rejected write
    is simply absent from a database; rejected-at-resync is covered by C18_resync_rejected_hidden);
    [tomb_agree]: both functions give the same verdict on tombstone bodies -- resync never visits a
    tombstoned document (statement without it: C18_Refuted.resync_tombstone_eq_fresh_refuted);
